@@ -8,7 +8,11 @@
    is what a purely local build of node p produces, [tbid p] its Build-Id.
    hashW (directory hash), bidf (the Build-Id digest), run_build / run_pkg (the
    scripts) are arbitrary functions: nothing is assumed about them except where
-   a hypothesis says so (ids_sound, ids_sound_in). *)
+   a hypothesis says so (ids_sound, ids_sound_in).
+   Hypotheses on the project tree: [uniq_ids] (a dist workspace belongs to one
+   node) and [src_consistent] (r_src identifies the checkout step: nodes with an
+   own checkout and equal r_src -- variants of one recipe that differ only after
+   checkout -- carry the same r_srcid, r_haslive, r_live, r_livecalc). *)
 From Coq Require Import List NArith Bool.
 Require Import BobV.Common.Cases BobV.Common.Sha1 BobV.Ids.Model BobV.Ids.Proofs.
 Require Import BobV.C07.Model BobV.C07.Spec BobV.C07.Proofs BobV.C07.IdProofs.
@@ -26,7 +30,7 @@ Open Scope N_scope.
    on the live-build-id translations and on the archive is re-established. *)
 Theorem download_equals_local :
   forall hashW bidf run_build run_pkg c root st0,
-    uniq_ids root -> live_consistent root -> ids_sound_in bidf run_build run_pkg root ->
+    uniq_ids root -> src_consistent root -> live_consistent root -> ids_sound_in bidf run_build run_pkg root ->
     trusted_ws hashW bidf run_build run_pkg root st0 -> translations_right root st0 ->
     archive_sound_for hashW bidf run_build run_pkg root (arch st0) ->
     match invoke hashW bidf run_build run_pkg c root st0 with
@@ -48,7 +52,7 @@ Proof. exact download_equals_local_proof. Qed.
    construction. *)
 Theorem download_equals_local_honest :
   forall hashW bidf run_build run_pkg c root st0,
-    uniq_ids root -> live_consistent root -> ids_sound bidf run_build run_pkg ->
+    uniq_ids root -> src_consistent root -> live_consistent root -> ids_sound bidf run_build run_pkg ->
     trusted_ws hashW bidf run_build run_pkg root st0 -> translations_right root st0 ->
     honest hashW bidf run_build run_pkg (arch st0) ->
     match invoke hashW bidf run_build run_pkg c root st0 with
@@ -68,7 +72,7 @@ Proof. exact download_equals_local_honest_proof. Qed.
 Theorem other_workspace_zero_builds :
   forall hashW bidf run_build run_pkg cA cB r its stA sA stB,
     let root := Pkg r its in
-    uniq_ids root -> live_consistent root -> ids_sound_in bidf run_build run_pkg root ->
+    uniq_ids root -> src_consistent root -> live_consistent root -> ids_sound_in bidf run_build run_pkg root ->
     ws stA = [] -> never_tries cA -> c_can_upload cA = true ->
     translations_right root stA ->
     archive_sound_for hashW bidf run_build run_pkg root (arch stA) -> all_wellformed hashW (arch stA) ->
@@ -85,7 +89,8 @@ Proof. exact other_workspace_zero_builds_proof. Qed.
 
 (* P1. Wrong live-build-id predictions.  (a) For every project, state, archive and
    translation table the restart loop ends within n_srcs root + 1 passes (each
-   restart turns one predicted source build-id into a verified one). *)
+   restart turns the predicted source build-id of one checkout step into a
+   verified one). *)
 Theorem wrong_prediction_restarts_bounded :
   forall hashW bidf run_build run_pkg c root st0,
     invoke hashW bidf run_build run_pkg c root st0 <> OutOfFuel.
@@ -99,7 +104,7 @@ Proof. exact invoke_terminates_proof. Qed.
    "Non-predicted incorrect Build-Id found!". *)
 Theorem wrong_prediction_restarts_and_converges :
   forall hashW bidf run_build run_pkg c root st0,
-    uniq_ids root -> c_can_upload c = false ->
+    uniq_ids root -> src_consistent root -> c_can_upload c = false ->
     trusted_ws_all hashW bidf run_build run_pkg root st0 ->
     archive_sound_all hashW bidf run_build run_pkg root (arch st0) ->
     match invoke hashW bidf run_build run_pkg c root st0 with
@@ -162,13 +167,22 @@ Theorem platform_tags_have_no_zero_byte : Forall platform_ok BobV.Gen.ConstsC07.
 Proof. exact platform_tags_ok. Qed.
 
 (* ------------------------------------------------------------------ non-vacuity *)
+(* x_app depends on x_lib and on two variants x_v1 / x_v2 of one recipe that differ
+   only after checkout: two package nodes (dist workspaces 3 and 4, different
+   Variant-Ids and Build-Id cores) that share ONE checkout step (r_src 13). *)
 Definition x_lib : pkg :=
-  Pkg {| r_id := 2; r_vid := 20; r_core := 200; r_match := false; r_haslive := true; r_live := Some [52];
+  Pkg {| r_id := 2; r_src := 12; r_vid := 20; r_core := 200; r_match := false; r_haslive := true; r_live := Some [52];
          r_livecalc := Some [52]; r_srcid := [62]; r_fp := []; r_argmask := [] |} (ISrc INil).
+Definition x_v1 : pkg :=
+  Pkg {| r_id := 3; r_src := 13; r_vid := 30; r_core := 300; r_match := false; r_haslive := true; r_live := Some [53];
+         r_livecalc := Some [53]; r_srcid := [63]; r_fp := []; r_argmask := [] |} (ISrc INil).
+Definition x_v2 : pkg :=
+  Pkg {| r_id := 4; r_src := 13; r_vid := 31; r_core := 301; r_match := false; r_haslive := true; r_live := Some [53];
+         r_livecalc := Some [53]; r_srcid := [63]; r_fp := []; r_argmask := [] |} (ISrc INil).
 Definition x_app_r : recipe :=
-  {| r_id := 1; r_vid := 10; r_core := 100; r_match := false; r_haslive := true; r_live := Some [51];
-     r_livecalc := Some [51]; r_srcid := [61]; r_fp := []; r_argmask := [true] |}.
-Definition x_app_its : items := ISrc (IDep x_lib false 2 INil).
+  {| r_id := 1; r_src := 11; r_vid := 10; r_core := 100; r_match := false; r_haslive := true; r_live := Some [51];
+     r_livecalc := Some [51]; r_srcid := [61]; r_fp := []; r_argmask := [true; true; true] |}.
+Definition x_app_its : items := ISrc (IDep x_lib false 2 (IDep x_v1 false 2 (IDep x_v2 false 2 INil))).
 Definition x_app : pkg := Pkg x_app_r x_app_its.
 
 Definition c_upload : cfg :=      (* --download=no --upload *)
@@ -193,33 +207,57 @@ Definition x_local := local run_build_x run_pkg_x.
 Fixpoint count_ev (f : event -> bool) (l : list event) : N :=
   match l with [] => 0 | e :: r => (if f e then 1 else 0) + count_ev f r end.
 
-(* --download=deps: the dependency is downloaded, the root package built, result = local build *)
+(* the uploader (fresh workspace, --download=no --upload): the shared checkout step runs once,
+   both package nodes that use it are built and uploaded *)
+Example shared_checkout_nonvacuous :
+  N.eqb (count_ev (fun e => match e with ECheckout 13 => true | _ => false end) (trace x_A)) 1
+  && N.eqb (count_ev (fun e => match e with ECheckout _ => true | _ => false end) (trace x_A)) 3
+  && N.eqb (count_ev (fun e => match e with EPackage 3 => true | EPackage 4 => true | _ => false end) (trace x_A)) 2
+  && N.eqb (count_ev (fun e => match e with EUpload _ true => true | _ => false end) (trace x_A)) 4
+  && negb (beqb (tbid_x x_v1) (tbid_x x_v2)) = true.
+Proof. vm_compute. reflexivity. Qed.
+
+(* --download=deps: the dependencies are downloaded (one query for the shared checkout step, whose
+   sources are never fetched), the root package built, result = local build *)
 Example download_equals_local_nonvacuous :
   match invoke_x c_deps x_app x_B with
   | Ok s => beqb (content_of x_app s) (x_local x_app) && beqb (content_of x_lib s) (x_local x_lib)
+            && beqb (content_of x_v1 s) (x_local x_v1) && beqb (content_of x_v2 s) (x_local x_v2)
             && N.eqb (count_ev is_package_event (trace s)) 1
             && N.eqb (count_ev (fun e => match e with EDownload 2 true => true | _ => false end) (trace s)) 1
+            && N.eqb (count_ev (fun e => match e with EDownload 3 true => true | EDownload 4 true => true | _ => false end) (trace s)) 2
+            && N.eqb (count_ev (fun e => match e with EQuery 13 true => true | _ => false end) (trace s)) 1
+            && N.eqb (count_ev (fun e => match e with ECheckout 13 => true | _ => false end) (trace s)) 0
   | _ => false
   end = true.
 Proof. vm_compute. reflexivity. Qed.
 
-(* the hypotheses of download_equals_local hold for this instance *)
+(* the hypotheses of download_equals_local hold for this instance; the tree really contains
+   two different nodes that share a checkout step *)
 Example download_equals_local_hypotheses_nonvacuous :
-  uniq_ids x_app /\ live_consistent x_app /\ ids_sound_in bidf_x run_build_x run_pkg_x x_app /\
+  uniq_ids x_app /\ src_consistent x_app /\ live_consistent x_app /\ ids_sound_in bidf_x run_build_x run_pkg_x x_app /\
   trusted_ws hashW_x bidf_x run_build_x run_pkg_x x_app x_B /\ translations_right x_app x_B /\
-  archive_sound_for hashW_x bidf_x run_build_x run_pkg_x x_app (arch x_B).
+  archive_sound_for hashW_x bidf_x run_build_x run_pkg_x x_app (arch x_B) /\
+  (In x_v1 (nodes x_app) /\ In x_v2 (nodes x_app) /\ x_v1 <> x_v2 /\ pid x_v1 <> pid x_v2 /\
+   has_src (items_of x_v1) = true /\ has_src (items_of x_v2) = true /\
+   r_src (recipe_of x_v1) = r_src (recipe_of x_v2)).
 Proof.
-  assert (N2 : forall p, In p (nodes x_app) -> p = x_app \/ p = x_lib).
-  { intros p [<-|[<-|[]]]; auto. }
-  split; [|split; [|split; [|split; [|split]]]].
-  - intros p q Hp Hq E. destruct (N2 p Hp) as [->| ->], (N2 q Hq) as [->| ->]; try reflexivity; vm_compute in E; discriminate.
-  - intros p q l Hp Hq E1 E2. destruct (N2 p Hp) as [->| ->], (N2 q Hq) as [->| ->]; try reflexivity;
-      vm_compute in E1, E2; congruence.
-  - intros p q Hp Hq E. destruct (N2 p Hp) as [->| ->], (N2 q Hq) as [->| ->]; try reflexivity; vm_compute in E; discriminate.
-  - intros p Hp V. destruct (N2 p Hp) as [->| ->]; vm_compute in V; discriminate.
-  - intros p l x Hp E H. destruct (N2 p Hp) as [->| ->]; vm_compute in E; inversion E; subst l;
+  assert (N2 : forall p, In p (nodes x_app) -> p = x_app \/ p = x_lib \/ p = x_v1 \/ p = x_v2).
+  { intros p [<-|[<-|[<-|[<-|[]]]]]; auto. }
+  split; [|split; [|split; [|split; [|split; [|split; [|split]]]]]].
+  - intros p q Hp Hq E. destruct (N2 p Hp) as [->|[->|[->| ->]]], (N2 q Hq) as [->|[->|[->| ->]]];
+      try reflexivity; vm_compute in E; discriminate.
+  - intros p q Hp Hq _ _ E. destruct (N2 p Hp) as [->|[->|[->| ->]]], (N2 q Hq) as [->|[->|[->| ->]]];
+      try (repeat split; reflexivity); vm_compute in E; discriminate.
+  - intros p q l Hp Hq E1 E2. destruct (N2 p Hp) as [->|[->|[->| ->]]], (N2 q Hq) as [->|[->|[->| ->]]];
+      try reflexivity; vm_compute in E1, E2; congruence.
+  - intros p q Hp Hq E. destruct (N2 p Hp) as [->|[->|[->| ->]]], (N2 q Hq) as [->|[->|[->| ->]]];
+      try reflexivity; vm_compute in E; discriminate.
+  - intros p Hp V. destruct (N2 p Hp) as [->|[->|[->| ->]]]; vm_compute in V; discriminate.
+  - intros p l x Hp E H. destruct (N2 p Hp) as [->|[->|[->| ->]]]; vm_compute in E; inversion E; subst l;
       vm_compute in H; destruct H as [H|H]; inversion H; reflexivity.
-  - intros p a Hp LK W. destruct (N2 p Hp) as [->| ->]; vm_compute in LK; inversion LK; subst a; reflexivity.
+  - intros p a Hp LK W. destruct (N2 p Hp) as [->|[->|[->| ->]]]; vm_compute in LK; inversion LK; subst a; reflexivity.
+  - repeat split; try reflexivity; try (cbn; tauto); try discriminate.
 Qed.
 
 (* --download=yes in the other workspace: one download, no package step *)
@@ -242,6 +280,24 @@ Example wrong_prediction_restarts_and_converges_nonvacuous :
   | Ok s => beqb (content_of x_app s) (x_local x_app) && N.eqb (count_ev is_restart (trace s)) 1
             && N.eqb (count_ev (fun e => match e with EDownload 1 false => true | _ => false end) (trace s)) 1
             (* after the restart the download is tried again, with the right id: nothing is built *)
+            && N.eqb (count_ev (fun e => match e with EDownload 1 true => true | _ => false end) (trace s)) 1
+            && N.eqb (count_ev is_package_event (trace s)) 0
+  | _ => false
+  end = true.
+Proof. vm_compute. reflexivity. Qed.
+
+(* two wrong predictions in one invocation, one of them for the shared checkout step: two restarts
+   (the second one is caused by the first of the two nodes that use the shared step; the other node
+   finds the step already verified), then everything is downloaded under the right ids *)
+Definition x_B_wrong2 : state :=
+  {| ws := []; srcx := []; trc := []; arch := arch x_A; archl := ([51], [99]) :: ([53], [98]) :: archl x_A; wasrun := [];
+     corun := []; tried := []; srcids := []; bdids := []; trace := [] |}.
+
+Example wrong_prediction_twice_shared_checkout_nonvacuous :
+  match invoke_x c_yes x_app x_B_wrong2 with
+  | Ok s => beqb (content_of x_app s) (x_local x_app) && N.eqb (count_ev is_restart (trace s)) 2
+            && N.eqb (count_ev (fun e => match e with ECheckout 13 => true | _ => false end) (trace s)) 1
+            && N.eqb (count_ev (fun e => match e with EQuery 13 _ => true | _ => false end) (trace s)) 1
             && N.eqb (count_ev (fun e => match e with EDownload 1 true => true | _ => false end) (trace s)) 1
             && N.eqb (count_ev is_package_event (trace s)) 0
   | _ => false
